@@ -21,7 +21,7 @@ RULE = (
     "-v/-vv/-vvv, --ansi, --no-ansi, no-interaction, help, version; long and short spellings; singletons, pairs, larger "
     "sets; all 2^7 minus contradictory pairs in thorough) inserted at every kind of position before '--' (before the path, "
     "inside it, right after it, among the arguments, at the end) in both orders, x handler behaviour {writes styled text at 4 "
-    "levels to both streams, asks a confirmation (and, when the I/O is not interactive, ten more questions of every kind - plain, validated, choice by index / "
+    "levels to both streams (directly, and in a second kind through io.section()), asks a confirmation (and, when the I/O is not interactive, ten more questions of every kind - plain, validated, choice by index / "
     "name / integer, multi-select, confirmation - each of which must return the very default it was given), raises} x streams claiming / denying ANSI. Control: the same tokens after "
     "'--', also with a switch as the last token right before '--'. Sequences: four runs with different switches on ONE application object, each compared with the same line on a "
     "fresh application (a switch governs its own run only). Clauses per switch as in the statement; handler-level clauses only when the base command's handler still runs. "
@@ -120,6 +120,18 @@ def behaviour_for(env, kind, answers):
             io.error_line("V-err", V)
             io.error_line("VV-err", VV)
             io.error_line("D-err", D)
+            return 0
+        if kind == "section":
+            # the same messages through sections of the two outputs (as applications with live-updating output do)
+            sec = io.section()
+            sec.write_line("<info>N-out</info>")
+            sec.write_line("V-out", V)
+            sec.write_line("VV-out", VV)
+            sec.write_line("D-out", D)
+            sec.error_line("<error>N-err</error>")
+            sec.error_line("V-err", V)
+            sec.error_line("VV-err", VV)
+            sec.error_line("D-err", D)
             return 0
         if kind == "ask":
             answers.append(env.ConfirmationQuestion("proceed?", False).ask(io))
@@ -266,12 +278,12 @@ def judge_variant(sh, env, tree, path, names, base, switches, tokens, positions,
     if same_handler and not (names_set & {"quiet"}):
         sh.count("handler_level_checks")
         verbosity = tap["verbosity"]
-        if kind == "write":
+        if kind in ("write", "section"):
             o = SGR.sub("", r["out"]).split("\n")
             e = SGR.sub("", r["err"]).split("\n")
             if [l for l in o if l] != expected_lines("out", verbosity) or [l for l in e if l] != expected_lines("err", verbosity):
                 sh.violate("verbosity-messages", record, "verbosity %d: out %r err %r" % (verbosity, o, e))
-            for which, text, claims in (("standard", r["out"], ansi_streams[0]), ("error", r["err"], ansi_streams[1])):
+            for which, text, claims in ((("standard", r["out"], ansi_streams[0]), ("error", r["err"], ansi_streams[1])) if kind == "write" else ()):
                 decorated = ("ansi" in names_set) or (claims and "noansi" not in names_set)
                 if decorated and "\x1b" not in text:
                     sh.violate("ansi", record, "decoration on but styled handler text arrived without SGR on the %s stream: %r" % (which, text[:60]))
@@ -450,7 +462,7 @@ def run_tree(sh, env, tree, rng, tier):
     ansi_switches_after_each_other(sh, env, tree, rng, shape)
     switch_sequences(sh, env, tree, rng, shape)
     for path, names, base in base_lines(tree, rng, 4 if tier == "quick" else 6):
-        for kind in ("write", "ask", "raise"):
+        for kind in ("write", "ask", "raise", "section"):
             ansi_streams = (rng.random() < 0.5, rng.random() < 0.5)
             b, _ = execute(env, tree, base, kind, ansi_streams)
             want_status = 1 if kind == "raise" else 0
@@ -461,6 +473,8 @@ def run_tree(sh, env, tree, rng, tier):
             sets = subsets(rng, tier)
             if kind != "write":
                 sets = rng.sample(sets, max(6, len(sets) // 4))
+            if kind == "section":
+                sets = [x for x in sets if "quiet" in x or set(x) & set(VERB)] + [["quiet"], ["v2"]]
             for sset in sets:
                 order = list(sset)
                 rng.shuffle(order)
